@@ -13,7 +13,7 @@ from concurrent.futures import ThreadPoolExecutor
 from vf import Check, VERIF, REPO, SplitMix
 
 PID = "C05"
-NSTK = 96
+NSTK = 320          # stack words the probe records (harness prints the first STKW of them)
 INT_T = ["i8", "u8", "i16", "u16", "i32", "u32", "i64", "u64"]
 SCALAR_T = INT_T + ["p", "f", "d", "ld"]
 ENGINES_ALL = ["i", "0", "1", "2", "3"]
@@ -195,8 +195,14 @@ def build(c, seed):
     return b
 
 
-def request(cid, c, b, engines, callee=None):
-    r = [f"CASE {cid}", "ENG " + " ".join(engines)]
+def stkw_of(ms):
+    """stack words of the snapshot worth printing for prototypes with models ms"""
+    need = max([max(m["SYSV"]["stk"], m["FF"]["stk"], m["GEN"]["stk"]) for m in ms if "err" not in m] + [0])
+    return min(NSTK, max(96, need // 8 + 24))
+
+
+def request(cid, c, b, engines, callee=None, stkw=96):
+    r = [f"CASE {cid}", "ENG " + " ".join(engines), f"STKW {stkw}"]
     if callee:
         r.append(f"CALLEE {callee}")
     r.append("RET %x %x %x %x %x %x %x %x %x" % (b.ret["g0"], b.ret["g1"], b.ret["x0"], b.ret["x1"], b.nld,
@@ -209,9 +215,9 @@ def request(cid, c, b, engines, callee=None):
     return "\n".join(r) + "\n"
 
 
-def seq_request(cid, builds, engines):
+def seq_request(cid, builds, engines, stkw=96):
     """one request running the prototypes of `builds` one after another in ONE context"""
-    r = [f"CASE {cid}", "ENG " + " ".join(engines)]
+    r = [f"CASE {cid}", "ENG " + " ".join(engines), f"STKW {stkw}"]
     mod = ["m: module", "import probe"]
     for k, b in enumerate(builds):
         r.append(f"STEP {k}")
@@ -312,7 +318,9 @@ def run_harness(exe, reqs, so=None, timeout=None):
             with open(opath, "w") as of:
                 p = subprocess.run([exe], input=inp, stdout=of, stderr=subprocess.PIPE, text=True,
                                    timeout=timeout, preexec_fn=child_limits(cpu_s=int(timeout) + 60),
-                                   cwd=so_dir())
+                                   cwd=so_dir(),
+                                   env=dict(os.environ, ASAN_OPTIONS="detect_leaks=0:abort_on_error=1:"
+                                                                     "allocator_may_return_null=1:log_path=stderr"))
             rc, err = p.returncode, (p.stderr or "")[-2000:]
         except subprocess.TimeoutExpired as ex:
             rc, err = -99, "timeout"
@@ -346,7 +354,8 @@ def run_harness(exe, reqs, so=None, timeout=None):
             if rest:
                 found = True
                 crashes.append((cid, rest[0], rc, err[-300:]))
-                res.setdefault((cid, rest[0]), {"base": base})["X"] = f"rc={rc} {err[-200:]}"
+                asan = [l for l in err.split("\n") if "AddressSanitizer" in l or l.startswith(("WRITE of", "READ of"))]
+                res.setdefault((cid, rest[0]), {"base": base})["X"] = f"rc={rc} " + (" | ".join(asan[:3]) if asan else err[-200:])
                 skip[cid] = skip.get(cid, []) + done + [rest[0]]
                 if len(rest) > 1:
                     newp.append((cid, engs, t))
@@ -390,7 +399,7 @@ def run_parallel(exe, reqs, so=None, jobs=14):
 
 def snap_words(s):
     w = [int(x, 16) for x in s.split()]
-    return {"calls": w[0], "gpr": w[1:7], "rax": w[7], "rsp": w[8], "xmm": w[9:17], "stk": w[17:17 + NSTK]}
+    return {"calls": w[0], "gpr": w[1:7], "rax": w[7], "rsp": w[8], "xmm": w[9:17], "stk": w[17:]}
 
 
 def at(sn, loc):
@@ -399,7 +408,7 @@ def at(sn, loc):
         return sn["gpr"][n] if n < 6 else None
     if k == "x":
         return sn["xmm"][n] if n < 8 else None
-    if n % 8 or n // 8 >= NSTK:
+    if n % 8 or n // 8 >= len(sn["stk"]):
         return None
     return sn["stk"][n // 8]
 
@@ -576,6 +585,8 @@ def c_struct_body(n, sz):
 
 
 def gcc_supported(c):
+    if len(all_args(c)) > 62:        # the gcc callees report one bit per argument in a 64-bit mask
+        return False
     for t in all_args(c):
         n, sz = tparse(t)
         if n.startswith("blk") and c_struct_body(n, sz) is None:
@@ -836,6 +847,33 @@ def rand_case(rng, gcc_mode=False):
     return {"res": res, "args": args, "va": va}
 
 
+LONG_LENGTHS = list(range(60, 71)) + [127, 128, 129, 130] + [190, 200, 210]
+
+
+def long_cases(rng, per_length):
+    """argument lists far beyond the register files and beyond the default sizes of the interpreter's
+    per-call arrays (VARR default 64 elements): 60..70, 127..130, ~200 arguments"""
+    out = []
+    shapes = [
+        lambda j: "i64", lambda j: "d", lambda j: ("i64", "d")[j % 2],
+        lambda j: rng.choice(INT_T + ["p"]),
+        lambda j: rng.choice(["i32", "d", "f", "u8", "blk1:8", "blk2:16", "blk0:12", "blk3:16", "blk4:12", "blk1:13"]),
+        lambda j: rng.choice(["i64", "d", "ld", "blk0:24", "rblk:24", "i16"]),
+    ]
+    for n in LONG_LENGTHS:
+        for k in range(per_length):
+            sh = shapes[(k + n) % len(shapes)] if per_length < len(shapes) else shapes[k % len(shapes)]
+            args = [sh(j) for j in range(n)]
+            res = rng.choice([[], ["i64"], ["d", "i32"], ["ld"]])
+            if rng.chance(1, 4):       # long variadic tail behind a few named parameters
+                nn = 1 + rng.below(4)
+                tail = [t if va_type_ok(t) else "i64" for t in args[nn:]]
+                out.append({"res": res, "args": args[:nn], "va": tail})
+            else:
+                out.append({"res": res, "args": args, "va": None})
+    return out
+
+
 def res_legal(r):
     ni = sum(1 for t in r if t in INT_T or t == "p")
     nx = sum(1 for t in r if t in ("f", "d"))
@@ -1022,7 +1060,8 @@ class Runner:
                 self.ck.broken_ties.append({"kind": "gcc-oracle-compile", "name": tag})
                 return []
         for i, (c, b) in enumerate(zip(cases, builds)):
-            reqs.append((f"c{i}", engines, request(f"c{i}", c, b, engines, callee=(f"cal{i}" if gcc else None))))
+            reqs.append((f"c{i}", engines, request(f"c{i}", c, b, engines, callee=(f"cal{i}" if gcc else None),
+                                                   stkw=stkw_of([ms[i]]))))
         res, crashes = run_parallel(self.exe, reqs, so)
         # a timeout may be machine load, not a hang: re-run such an evaluation alone with a generous limit
         slow = [(cid, e) for (cid, e), r in res.items() if "timeout" in r.get("X", "")][:6]
@@ -1065,7 +1104,10 @@ class Runner:
                 pairs += passint_pairs(c, b)
             builds.append(bs)
         model_x = dict(zip(pairs, self.model.passint(pairs)))
-        reqs = [(f"q{si}", engines, seq_request(f"q{si}", bs, engines)) for si, bs in enumerate(builds)]
+        reqs, k0 = [], 0
+        for si, bs in enumerate(builds):
+            reqs.append((f"q{si}", engines, seq_request(f"q{si}", bs, engines, stkw=stkw_of(ms_all[k0:k0 + len(bs)]))))
+            k0 += len(bs)
         res, crashes = run_parallel(self.exe, reqs, None)
         out = []
         for si, sq in enumerate(seqs):
@@ -1156,10 +1198,16 @@ WITNESSES = [
 def main():
     ck = Check(PID)
     ck.proof_gate(["MirVerif.Props.C05"],
-                  support_modules=["MirVerif.Model.AbiX64", "MirVerif.Lemmas.AbiX64", "MirVerif.Lemmas.AbiX64Run", "MirVerif.Lemmas.AbiX64Spec"],
+                  support_modules=["MirVerif.Model.AbiX64", "MirVerif.Lemmas.AbiX64", "MirVerif.Lemmas.AbiX64Run", "MirVerif.Lemmas.AbiX64Spec",
+                                   "MirVerif.Lemmas.AbiX64Cache"],
                   exes=["mirdrv_c05"])
     srcs = ["harness/c05_harness.c", "harness/c05_probe.S", os.path.join(REPO, "mir.c"), os.path.join(REPO, "mir-gen.c")]
-    exe = ck.cc("c05_harness", srcs, flags=["-O1", "-g", "-DNDEBUG", "-w"])
+    exes = ck.cc_par([("c05_harness", srcs, ["-O1", "-g", "-DNDEBUG", "-w"]),
+                      ("c05_harness_asan", srcs, ["-O1", "-g", "-DNDEBUG", "-w", "-fsanitize=address",
+                                                  "-fno-omit-frame-pointer"])])
+    exe, exe_asan = exes["c05_harness"], exes["c05_harness_asan"]
+    if exe_asan is None:
+        ck.broken_ties.append({"kind": "harness-compile", "name": "c05_harness_asan", "log": getattr(ck, "last_cc_log", "")[-1500:]})
     if exe is None:
         ck.broken_ties.append({"kind": "harness-compile", "name": "c05_harness", "log": ck.last_cc_log[-1500:]})
         ck.finish()
@@ -1360,6 +1408,27 @@ def main():
     if n_crash >= 3 or rn.n_skipped:
         seqs = seqs[:300]
     seq_res = rn.eval_seqs([sq for _, sq in seqs], ["i", "0", "2"])
+    # ---- stage 3c: very long argument lists on all engines; AddressSanitizer flavour of the library
+    t2 = time.time()
+    longs = long_cases(ck.rng, 6 if thorough else 3)
+    model.place([case_line(c) for c in longs])
+    longs = [c for c in longs if fits(c)]
+    results += [(x, False) for x in rn.eval_cases(longs, ENGINES_ALL, tag="l")]
+    n_asan = 0
+    if exe_asan is not None:
+        rn_a = Runner(ck, exe_asan, model)
+        acases = cases + longs + rand_cases[:(4000 if thorough else 400)]
+        results += [(x, False) for x in rn_a.eval_cases(acases, ["i", "0", "2"], tag="a")]
+        seq_res += rn_a.eval_seqs([sq for _, sq in seqs[:(3000 if thorough else 300)]], ["i", "2"])
+        n_asan = rn_a.n_eval
+        rn.n_eval += rn_a.n_eval
+        rn.n_skipped += rn_a.n_skipped
+    ck.log(f"long lists: {len(longs)} prototypes with {LONG_LENGTHS[0]}..{LONG_LENGTHS[-1]} arguments x 5 engines; "
+           f"ASan flavour: {n_asan} evaluations: {time.time() - t2:.1f}s")
+    ck.cov["long_lists"] = {"lengths": LONG_LENGTHS, "prototypes": len(longs), "asan_evaluations": n_asan,
+                            "rule": "all-i64, all-d, alternating, narrow ints, block mixes, ld/rblk mixes; a quarter with "
+                                    "the list as a variadic tail; interpreter FFI and generated code -O0..-O3; also run on a "
+                                    "-fsanitize=address build of mir.c/mir-gen.c"}
     ck.log(f"sequences: {len(seqs)} call sequences ({sum(len(sq) for _, sq in seqs)} calls) x 3 engines: {time.time() - t:.1f}s")
     seq_kinds = {}
     for k, sq in seqs:
